@@ -332,3 +332,122 @@ def import_cycle_project(rng, k):
             files['m%d.py' % i] = "from m%d import *\nval = val\n" % j
     main = "import m0\nfrom m%d import val\nm0.val\nval" % rng.randrange(k)
     return files, main
+
+
+# ------------------------------------------------------------------ star-import graphs
+
+def star_reach(star, v):
+    """modules whose names `from m<v> import *` hands on, statically: transitive closure over the
+    star edges, `v` itself excluded unless it is on a cycle"""
+    seen, todo = [], list(star[v])
+    while todo:
+        w = todo.pop(0)
+        if w not in seen:
+            seen.append(w)
+            todo += star[w]
+    return seen
+
+
+def star_project(rng, k):
+    """a project of k modules m0..m{k-1} + main.py whose import statements form a graph with at
+    least one cycle of length L (1 <= L <= k); the edges are `from mJ import *` or `import mJ`.
+    Every module defines one class with one method and an instance; the uses of foreign names sit
+    in a function that is never called, so the real interpreter imports every module whatever
+    the order.  Returns (files, uses, meta): uses[file] = [(line, column, name)] at the END of
+    names that are not defined in that file (found through star filters / module attributes)."""
+    L = rng.randint(1, k)
+    ring = rng.sample(range(k), L)
+    cyc_style = rng.choice(['star', 'star', 'mixed'])
+    edges = {i: [] for i in range(k)}       # i -> [(j, style)]
+    for a, b in zip(ring, ring[1:] + ring[:1]):
+        edges[a].append((b, 'star' if cyc_style == 'star' or rng.random() < 0.5 else 'import'))
+    for _ in range(rng.randint(0, k)):
+        a, b = rng.randrange(k), rng.randrange(k)
+        if all(b != j for j, _s in edges[a]):
+            edges[a].append((b, rng.choice(['star', 'star', 'import'])))
+    for i in range(k):
+        rng.shuffle(edges[i])
+    star = {i: [j for j, s in edges[i] if s == 'star'] for i in range(k)}
+    files, uses = {}, {}
+    for i in range(k):
+        lines = []
+        for j, s in edges[i]:
+            lines.append('from m%d import *' % j if s == 'star' else 'import m%d' % j)
+        lines += ['class C%d:' % i, '    def meth%d(self):' % i, '        return self', 'obj%d = C%d()' % (i, i),
+                  'def use%d():' % i]
+        exprs = []
+        for j in star_reach(star, i):
+            if j != i:
+                exprs.append('C%d().meth%d' % (j, j))
+        for j, s in edges[i]:
+            if s == 'import':
+                exprs.append('m%d.C%d().meth%d' % (j, j, j))
+                for t in star_reach(star, j)[:2]:
+                    exprs.append('m%d.obj%d.meth%d' % (j, t, t))
+        exprs.append('obj%d.meth%d' % (i, i))
+        rng.shuffle(exprs)
+        u = []
+        for e in exprs[:4]:
+            lines.append('    ' + e)
+            u.append((len(lines), len(lines[-1]), e))
+            # and the end of the first name of the expression (class / module / instance)
+            first = e.split('.')[0].split('(')[0]
+            u.append((len(lines), 4 + len(first), first))
+        files['m%d.py' % i] = '\n'.join(lines) + '\n'
+        uses['m%d.py' % i] = u
+    r = ring[0]
+    lines = ['from m%d import *' % r, 'def use_main():']
+    u = []
+    for j in ([r] + [x for x in star_reach(star, r) if x != r])[:4]:
+        lines.append('    C%d().meth%d' % (j, j))
+        u.append((len(lines), len(lines[-1]), lines[-1].strip()))
+    files['main.py'] = '\n'.join(lines) + '\n'
+    uses['main.py'] = u
+    star_cycle = _star_cycle_len(k, star) > 0
+    meta = {'k': k, 'ring': ring, 'edges': {str(i): edges[i] for i in range(k)},
+            'star_cycle_len': _star_cycle_len(k, star), 'star_cycle': star_cycle}
+    return files, uses, meta
+
+
+def _star_cycle_len(k, star):
+    """length of the longest simple star-import cycle found by walking from every module (0: none)"""
+    best = 0
+    for s in range(k):
+        stack = [(s, [s])]
+        while stack:
+            v, path = stack.pop()
+            for w in star[v]:
+                if w == s:
+                    best = max(best, len(path))
+                elif w not in path and len(path) < k:
+                    stack.append((w, path + [w]))
+    return best
+
+
+def star_chain(n):
+    files = {'a0.py': 'class Base:\n    def meth(self):\n        return self\n'}
+    for i in range(1, n + 1):
+        files['a%d.py' % i] = 'from a%d import *\n' % (i - 1)
+    return files, 'from a%d import *\nBase().meth' % n
+
+
+def star_diamond(n):
+    """n nested diamonds: a_i star-imports b_i and c_i, which both star-import a_{i-1}"""
+    files = {'a0.py': 'class Base:\n    def meth(self):\n        return self\n'}
+    for i in range(1, n + 1):
+        files['b%d.py' % i] = 'from a%d import *\n' % (i - 1)
+        files['c%d.py' % i] = 'from a%d import *\n' % (i - 1)
+        files['a%d.py' % i] = 'from b%d import *\nfrom c%d import *\n' % (i, i)
+    return files, 'from a%d import *\nBase().meth' % n
+
+
+def star_ring(n):
+    """a_0 -> a_1 -> ... -> a_n -> a_0, every module with a class of its own"""
+    files = {}
+    for i in range(n + 1):
+        files['a%d.py' % i] = 'from a%d import *\nclass K%d:\n    def meth(self):\n        return self\n' % (
+            (i + 1) % (n + 1), i)
+    return files, 'from a0 import *\nK%d().meth' % n
+
+
+STAR_FAMILIES = {'star_chain': star_chain, 'star_diamond': star_diamond, 'star_ring': star_ring}
